@@ -219,6 +219,13 @@ pub fn gen_tx(r: &mut Rng, focus: Focus) -> tir::Tx {
         };
         inputs.push(tir::Input { name: format!("in{}", i), utxos, redeemer: if with_red { const_data(r, 2) } else { E::None } });
     }
+    // C10: one template in twelve binds a second block to the UTxO of the first (recorded finding F10-3)
+    if focus == Focus::C10 && r.chance(1, 12) {
+        if let E::UtxoRefs(v) = &inputs[0].utxos {
+            let copy = v.clone();
+            inputs.push(tir::Input { name: "again".into(), utxos: E::UtxoRefs(copy), redeemer: E::None });
+        }
+    }
     // outputs
     let n_out = 1 + r.below(3) as usize;
     let outputs = (0..n_out)
@@ -368,13 +375,21 @@ pub fn gen_tx(r: &mut Rng, focus: Focus) -> tir::Tx {
         mints,
         burns,
         adhoc,
+        // set fields: C10 also gives a member twice (two collateral blocks on one UTxO, one signer as key hash and as address)
         collateral: if r.chance(1, 4) {
-            (0..1 + r.below(2)).map(|k| tir::Collateral { utxos: E::UtxoRefs(vec![UtxoRef { txid: txid_pool(60 + k), index: k as u32 }]) }).collect()
+            let dup = focus == Focus::C10 && r.chance(1, 3);
+            (0..1 + r.below(2) + dup as u64).map(|k| { let k = if dup { k / 2 } else { k }; tir::Collateral { utxos: E::UtxoRefs(vec![UtxoRef { txid: txid_pool(60 + k), index: k as u32 }]) } }).collect()
         } else {
             vec![]
         },
         signers: if r.chance(1, 5) {
-            Some(tir::Signers { signers: vec![if r.chance(1, 2) { E::Bytes(vec![9; if focus == Focus::C14 && r.chance(1, 3) { 20 } else { 28 }]) } else { E::Address(addr_bytes(0xA1)) }] })
+            let one = if r.chance(1, 2) { E::Bytes(vec![9; if focus == Focus::C14 && r.chance(1, 3) { 20 } else { 28 }]) } else { E::Address(addr_bytes(0xA1)) };
+            let mut v = vec![one.clone()];
+            if focus == Focus::C10 && r.chance(1, 2) {
+                v.push(if r.chance(1, 2) { one } else { E::Bytes(vec![7; 28]) });
+                if r.chance(1, 2) { v.push(E::Bytes(vec![9; 28])); }
+            }
+            Some(tir::Signers { signers: v })
         } else {
             None
         },
